@@ -23,7 +23,7 @@ import os
 import unicodedata
 import zipfile
 
-from harness.fw import Check, Driver, VERIF
+from harness.fw import Check, Driver, ToolFailure, VERIF
 from harness.zipwriter import write_zip
 
 DIGITS = "0123456789"
@@ -130,16 +130,14 @@ def oracle(case, obs):
     content = {n: d for n, d, _ in entries}
     zf = zipfile.ZipFile(io.BytesIO(obs["raw"]))
     znames = zf.namelist()
-    if znames != names:       # the writer and zipfile must agree, else the case itself is unusable
-        bad.append(("harness: zipfile lists other names than were written", names, znames))
-        return bad
+    if znames != names:       # the writer and zipfile must agree, else the case itself is unusable: no verdict
+        raise ToolFailure(f"zipfile lists other names than harness/zipwriter.py wrote: {names!a} vs {znames!a}")
     if obs["files"] != znames:
         bad.append(("get_files differs from the archive's entry names", znames, obs["files"]))
     for n in names:
         zdata = zf.read(n)
         if zdata != content[n]:
-            bad.append(("harness: zipfile reads other bytes than were written", content[n].hex(), zdata.hex()))
-            continue
+            raise ToolFailure(f"zipfile reads other bytes than harness/zipwriter.py wrote for {n!a}")
         line, got = obs["get"][n]
         if got != zdata:
             bad.append((f"get_file({n!r}) does not return the entry's uncompressed content",
@@ -392,9 +390,11 @@ def run(ck: Check):
         raw = write_zip([(n, b"", False) for n in chunk])
         a = APK(raw, raw=True, skip_analysis=True)
         files = list(a.get_files())
-        if files != chunk or zipfile.ZipFile(io.BytesIO(raw)).namelist() != chunk:
+        z = zipfile.ZipFile(io.BytesIO(raw)).namelist()
+        if z != chunk:
+            raise ToolFailure("zipfile lists other names than harness/zipwriter.py wrote (name stream)")
+        if files != chunk:
             # find the first name that is not listed as written and report it alone
-            z = zipfile.ZipFile(io.BytesIO(raw)).namelist()
             j = next((k for k in range(len(chunk)) if k >= len(files) or files[k] != chunk[k]), 0)
             case = {"entries": [[chunk[j], "", False]], "queries": []}
             obs = observe(case)
